@@ -25,6 +25,9 @@ mod mask;
 mod path;
 mod render;
 
+#[cfg(resvg_verif)]
+pub mod verif_hooks;
+
 /// Renders a tree onto the pixmap.
 ///
 /// `transform` will be used as a root transform.
